@@ -10,7 +10,7 @@ git -C $M/repo checkout -q -- .
 rsync -a --delete --exclude target /verif/harness/ $M/harness/
 rsync -a --delete /verif/golden/ $M/golden/
 sed -i "s|path = \"/repo\"|path = \"$M/repo\"|" $M/harness/Cargo.toml
-sed -i "s|target-dir = \"/verif/target\"|target-dir = \"$M/target\"|" $M/harness/.cargo/config.toml
+sed -i "s|target-dir = \"../target\"|target-dir = \"$M/target\"|" $M/harness/.cargo/config.toml
 ln -sfn /verif/known_findings.jsonl $M/vd/known_findings.jsonl
 ln -sfn /verif/regress $M/vd/regress
 echo "mutant environment ready in $M"
